@@ -213,6 +213,70 @@ fn cases(tier: Tier) -> Vec<Case> {
             }
         }
     }
+    // ---- (2b) dense bit patterns: values that differ in one byte / bit region of the fixed-width key encoding only
+    // (neighbouring doubles, integers around every byte boundary)
+    {
+        let mut fams: Vec<(&str, Vec<String>)> = Vec::new();
+        let mut f64s: Vec<String> = Vec::new();
+        for base in [1.0f64.to_bits(), (-1.0f64).to_bits(), 0u64, 1e300f64.to_bits(), (-2.5e-300f64).to_bits()] {
+            for d in [0u64, 1, 2, 3, 0x7FFF_FFFF, 0x8000_0000, 0xFFFF_FFFF, 0x1_0000_0000, 0x1_0000_0001, 0xFFFF_FFFF_FFFF] {
+                let v = f64::from_bits(base.wrapping_add(d));
+                if v.is_finite() {
+                    f64s.push(format!("CAST('{v:e}' AS DOUBLE)"));
+                }
+            }
+        }
+        fams.push(("Float64", f64s));
+        let mut f32s: Vec<String> = Vec::new();
+        for base in [1.0f32.to_bits(), (-1.0f32).to_bits(), 0u32, 1e30f32.to_bits()] {
+            for d in [0u32, 1, 2, 0x7F, 0x80, 0xFF, 0x100, 0x7FFF, 0x8000, 0xFFFF, 0x1_0000] {
+                let v = f32::from_bits(base.wrapping_add(d));
+                if v.is_finite() {
+                    f32s.push(format!("CAST('{v:e}' AS REAL)"));
+                }
+            }
+        }
+        fams.push(("Float32", f32s));
+        let mut i64s: Vec<String> = Vec::new();
+        let mut i32s: Vec<String> = Vec::new();
+        let mut u64s: Vec<String> = Vec::new();
+        for b in [0u32, 7, 8, 15, 16, 23, 24, 31, 32, 39, 40, 47, 48, 55, 56, 62] {
+            for d in [-1i128, 0, 1] {
+                let v = (1i128 << b) + d;
+                for sgn in [1i128, -1] {
+                    let x = v * sgn;
+                    if x >= i64::MIN as i128 && x <= i64::MAX as i128 {
+                        i64s.push(format!("CAST({x} AS BIGINT)"));
+                    }
+                    if x >= i32::MIN as i128 && x <= i32::MAX as i128 {
+                        i32s.push(format!("CAST({x} AS INT)"));
+                    }
+                    if x >= 0 {
+                        u64s.push(format!("CAST({x} AS UBIGINT)"));
+                    }
+                }
+            }
+        }
+        u64s.push("CAST(18446744073709551615 AS UBIGINT)".into());
+        u64s.push("CAST(9223372036854775808 AS UBIGINT)".into());
+        fams.push(("Int64", i64s));
+        fams.push(("Int32", i32s));
+        fams.push(("UInt64", u64s));
+        for (tn, vals) in fams {
+            // deterministic shuffle: stride through the list
+            let n = vals.len();
+            let rows: Vec<String> = (0..n).map(|i| format!("({}, {i})", vals[(i * 7 + 3) % n])).collect();
+            let src = format!("(VALUES {}) v(k, p)", rows.join(", "));
+            for (dn, desc, nf) in dir_variants() {
+                if !full && !(dn == "asc" || dn == "desc-nl") {
+                    continue;
+                }
+                for (p, b) in if full { vec![(1usize, 2048usize), (2, 3), (3, 1)] } else { vec![(1, 2048), (2, 3)] } {
+                    out.push(Case { shape: format!("bits:{tn}"), sets: vec![format!("SET partitions TO {p}"), format!("SET batch_size TO {b}")], setup: vec![], sql: format!("SELECT k, p FROM {src} ORDER BY k{}", dir_sql(desc, nf)), keys: vec![key(1, desc, nf)], input_sql: Some(format!("SELECT k, p FROM {src}")), slice: None, note: format!("{dn} P{p} B{b}") });
+                }
+            }
+        }
+    }
     // ---- (3) strings: all strings of length <= 3 over a byte-order-sensitive alphabet, with shared prefixes
     let sigma = ["\u{1}", "a", "b", "\u{7f}", "é", "\u{ff}", "\u{10ffff}"];
     let mut strs: Vec<String> = vec![String::new()];
